@@ -521,7 +521,7 @@ class ZorgFileCompiler(ZorgFileListener):
             )
             if any(
                 any(
-                    "::" in b.split()[0]
+                    _first_word_is_prop(b)
                     for b in bullet.split(l2_bullet_prefix)[1:]
                 )
                 for bullet in bullets
@@ -537,7 +537,7 @@ class ZorgFileCompiler(ZorgFileListener):
                 ]
             if any(
                 any(
-                    "::" in b.split()[0]
+                    _first_word_is_prop(b)
                     for b in bullet.split(l3_bullet_prefix)[1:]
                 )
                 for bullet in bullets
@@ -573,6 +573,16 @@ class ZorgFileCompiler(ZorgFileListener):
             assert self._s.block is not None
             note = Note(body, file_path=self.page.path, **kwargs)
             self._s.block.notes.append(note)
+
+
+def _first_word_is_prop(bullet_text: str) -> bool:
+    """Does the text of a bullet start with a 'key::' word?
+
+    A bullet marker may be followed by nothing but blanks (e.g. two markers in
+    a row), in which case there is no first word to look at.
+    """
+    words = bullet_text.split()
+    return bool(words) and "::" in words[0]
 
 
 def _second_child_text(ctx: Any) -> Optional[str]:
